@@ -42,7 +42,7 @@ type MultiWorld struct {
 	Groups  map[string][]string
 }
 
-var repoRoots = []string{"/w/app", "/w/app-tools", "/w/app2", "/w/app/vendor/sub", "/x/y/z/r"}
+var repoRoots = []string{"/w/app", "/w/app-tools", "/w/app2", "/w/app/vendor/sub", "/x/y/z/r", "/w/APP"}
 
 var repoConfigs = []string{
 	"",
